@@ -29,6 +29,12 @@ type genType struct {
 	Strings   []string
 	Fields    []string // every schema field (Go field names), in declaration order
 	Oneofs    map[string]bool
+	Required  []string // proto2 required fields (struct tag "...,req,...")
+	ReqMsg    map[string]bool // required fields of message type
+	Zero      map[string]string // Go zero literal per schema field
+	RepBytes  []string          // repeated bytes fields
+	StrPtrs   []string          // optional string fields held by pointer (proto2 / proto3 optional)
+	MsgExts   []string // extension descriptors whose value Size() passes to csproto.Size (message-typed extensions)
 	HasUnmarshal bool
 }
 
@@ -110,6 +116,7 @@ func scanGenTypes(files map[string][]byte) (string, []*genType, error) {
 	pkgName := ""
 	has := map[string]map[string]bool{}
 	structs := map[string]*ast.StructType{}
+	exts := map[string][]string{}
 	var names []string
 	for n := range files {
 		names = append(names, n)
@@ -133,6 +140,9 @@ func scanGenTypes(files map[string][]byte) (string, []*genType, error) {
 							has[id.Name] = map[string]bool{}
 						}
 						has[id.Name][v.Name.Name] = true
+						if v.Name.Name == "Size" && v.Body != nil {
+							exts[id.Name] = msgExtsOf(v.Body)
+						}
 					}
 				}
 			case *ast.GenDecl:
@@ -160,7 +170,7 @@ func scanGenTypes(files map[string][]byte) (string, []*genType, error) {
 		if st == nil {
 			continue
 		}
-		g := &genType{Name: t, HasUnmarshal: has[t]["Unmarshal"]}
+		g := &genType{Name: t, HasUnmarshal: has[t]["Unmarshal"], MsgExts: exts[t]}
 		for _, f := range st.Fields.List {
 			for _, fn := range f.Names {
 				switch fn.Name {
@@ -174,6 +184,33 @@ func scanGenTypes(files map[string][]byte) (string, []*genType, error) {
 					continue
 				}
 				g.Fields = append(g.Fields, fn.Name)
+				if g.Zero == nil {
+					g.Zero = map[string]string{}
+				}
+				g.Zero[fn.Name] = zeroLit(f.Type)
+				if at, ok := f.Type.(*ast.ArrayType); ok {
+					if in, ok := at.Elt.(*ast.ArrayType); ok {
+						if id, ok := in.Elt.(*ast.Ident); ok && (id.Name == "byte" || id.Name == "uint8") {
+							g.RepBytes = append(g.RepBytes, fn.Name)
+						}
+					}
+				}
+				if se, ok := f.Type.(*ast.StarExpr); ok {
+					if id, ok := se.X.(*ast.Ident); ok && id.Name == "string" {
+						g.StrPtrs = append(g.StrPtrs, fn.Name)
+					}
+				}
+				if f.Tag != nil && strings.Contains(f.Tag.Value, ",req,") {
+					g.Required = append(g.Required, fn.Name)
+					if se, ok := f.Type.(*ast.StarExpr); ok {
+						if id, ok := se.X.(*ast.Ident); ok && structs[id.Name] != nil {
+							if g.ReqMsg == nil {
+								g.ReqMsg = map[string]bool{}
+							}
+							g.ReqMsg[fn.Name] = true
+						}
+					}
+				}
 				switch ft := f.Type.(type) {
 				case *ast.ArrayType:
 					if id, ok := ft.Elt.(*ast.Ident); ok && (id.Name == "byte" || id.Name == "uint8") {
@@ -193,6 +230,70 @@ func scanGenTypes(files map[string][]byte) (string, []*genType, error) {
 		out = append(out, g)
 	}
 	return pkgName, out, nil
+}
+
+// zeroLit: the Go zero literal of a generated message field's type.
+func zeroLit(e ast.Expr) string {
+	switch t := e.(type) {
+	case *ast.StarExpr, *ast.ArrayType, *ast.MapType, *ast.InterfaceType:
+		return "nil"
+	case *ast.Ident:
+		switch t.Name {
+		case "string":
+			return `""`
+		case "bool":
+			return "false"
+		case "int32", "int64", "uint32", "uint64", "float32", "float64", "int", "uint":
+			return "0"
+		}
+		if strings.HasPrefix(t.Name, "is") {
+			return "nil" // oneof wrapper interface
+		}
+		return "0" // enum
+	}
+	return "0"
+}
+
+// msgExtsOf finds `if extVal, _ := csproto.GetExtension(m, E); extVal != nil { ... csproto.Size(extVal) ... }`
+// in a generated Size body and returns the descriptors E.
+func msgExtsOf(body *ast.BlockStmt) []string {
+	var out []string
+	ast.Inspect(body, func(n ast.Node) bool {
+		is, ok := n.(*ast.IfStmt)
+		if !ok || is.Init == nil {
+			return true
+		}
+		as, ok := is.Init.(*ast.AssignStmt)
+		if !ok || len(as.Rhs) != 1 {
+			return true
+		}
+		call, ok := as.Rhs[0].(*ast.CallExpr)
+		if !ok || len(call.Args) != 2 {
+			return true
+		}
+		sel, ok := call.Fun.(*ast.SelectorExpr)
+		if !ok || sel.Sel.Name != "GetExtension" {
+			return true
+		}
+		e, ok := call.Args[1].(*ast.Ident)
+		if !ok {
+			return true
+		}
+		usesSize := false
+		ast.Inspect(is.Body, func(m ast.Node) bool {
+			if c, ok := m.(*ast.CallExpr); ok {
+				if s, ok := c.Fun.(*ast.SelectorExpr); ok && s.Sel.Name == "Size" {
+					usesSize = true
+				}
+			}
+			return true
+		})
+		if usesSize {
+			out = append(out, e.Name)
+		}
+		return true
+	})
+	return out
 }
 
 // genHarnesses renders the harness source and contract directives: one C04 harness per
@@ -217,7 +318,21 @@ func genHarnesses(pkgName string, types []*genType, listBound int) (string, stri
 			case isIn(t.Slices, f):
 				bound = fmt.Sprintf("\tgocv_assume(len(m.%s) <= %d)\n", f, listBound)
 			case isIn(t.Maps, f):
-				bound = fmt.Sprintf("\tgocv_assume(len(m.%s) == 0)\n", f)
+				bound = fmt.Sprintf("\tgocv_assume(len(m.%s) <= 1)\n", f)
+			}
+			cacheReset := ""
+			if t.Cache != "" {
+				cacheReset = fmt.Sprintf("\tm.%s = 0 // as in a fresh copy: Marshal computes the size itself\n", t.Cache)
+			}
+			req := ""
+			for _, r := range t.Required {
+				if r != f {
+					req += fmt.Sprintf("\tm.%[1]s = src.%[1]s\n", r)
+				}
+			}
+			for _, e := range t.MsgExts {
+				// the runtime returns a value of the extension's declared Go type - a message
+				req += fmt.Sprintf("\tif v := gocv_extSlot(m, %s).val; v != nil {\n\t\t_, ok := v.(csproto.Sizer)\n\t\tgocv_assume(ok)\n\t}\n", e)
 			}
 			fmt.Fprintf(&h, `
 func lemma_c04_%[1]s_%[2]s(m *%[1]s, src *%[1]s) {
@@ -225,23 +340,187 @@ func lemma_c04_%[1]s_%[2]s(m *%[1]s, src *%[1]s) {
 	var z %[1]s
 	*m = z
 	m.%[2]s = src.%[2]s
-%[3]s	gocv_assume(gocv_wellFormed(m.%[2]s))
+%[4]s%[3]s	gocv_assume(gocv_wellFormed(m.%[2]s))
 	sz := m.Size()
-	gocv_assume(sz <= 1<<31-1) // protobuf: a message is at most 2 GiB (the size cache is an int32)
+	gocv_assume(int(int32(sz)) == sz) // protobuf: a message is smaller than 2 GiB (the size cache is an int32)
 	buf := make([]byte, sz)
 	err := m.MarshalTo(buf)
 	if err == nil && sz > 0 {
+		gocv_reach("marshaled")
 		gocv_assert(csproto.GocvEncoderOffset(gocv_lastEncoder()) == len(buf), "filled-exactly")
 	}
-	b, err2 := m.Marshal()
-	if err2 == nil {
+}
+
+func lemma_c04m_%[1]s_%[2]s(m *%[1]s, src *%[1]s) {
+	gocv_assume(m != nil && src != nil && m != src)
+	var z %[1]s
+	*m = z
+	m.%[2]s = src.%[2]s
+%[4]s%[3]s	gocv_assume(gocv_wellFormed(m.%[2]s))
+	sz := m.Size()
+	gocv_assume(int(int32(sz)) == sz) // protobuf: a message is smaller than 2 GiB
+%[5]s	b, err := m.Marshal()
+	if err == nil {
 		gocv_assert(len(b) == sz, "marshal-length-is-size")
 	}
 }
-`, t.Name, f, bound)
-			fmt.Fprintf(&c, "\n//@ func lemma_c04_%s_%s(m *%s, src *%s)\n//@   harness\n//@   inlines Size, MarshalTo, Marshal\n//@   bounded %d field %s alone (every other field zero); repeated fields with at most %d elements, maps empty\n", t.Name, f, t.Name, t.Name, listBound+1, f, listBound)
+`, t.Name, f, bound, req, cacheReset)
+			fmt.Fprintf(&c, "\n//@ func lemma_c04m_%s_%s(m *%s, src *%s)\n//@   harness\n//@   inlines Size, MarshalTo, Marshal\n//@   abstracts vlen\n//@   bounded %d field %s alone (every other field zero except proto2 required fields, which are arbitrary); repeated fields with at most %d elements, maps with at most 1 entry\n", t.Name, f, t.Name, t.Name, listBound+1, f, listBound)
+			fmt.Fprintf(&c, "\n//@ func lemma_c04_%s_%s(m *%s, src *%s)\n//@   harness\n//@   inlines Size, MarshalTo, Marshal\n//@   abstracts vlen\n//@   bounded %d field %s alone (every other field zero except proto2 required fields, which are arbitrary); repeated fields with at most %d elements, maps with at most 1 entry\n", t.Name, f, t.Name, t.Name, listBound+1, f, listBound)
+		}
+	}
+	// C09: what Size reports does not depend on what the size cache holds (the cache is also
+	// written by the protobuf runtime and survives field assignments: any int32 may be there).
+	for _, t := range types {
+		if t.Cache == "" {
+			continue
+		}
+		pre := ""
+		for _, r := range t.Required {
+			pre += fmt.Sprintf("\tm.%[1]s = src.%[1]s\n", r)
+		}
+		for _, e := range t.MsgExts {
+			pre += fmt.Sprintf("\tif v := gocv_extSlot(m, %s).val; v != nil {\n\t\t_, ok := v.(csproto.Sizer)\n\t\tgocv_assume(ok)\n\t}\n", e)
+		}
+		fmt.Fprintf(&h, `
+func lemma_c09_%[1]s(m *%[1]s, src *%[1]s, c int32) {
+	gocv_assume(m != nil && src != nil && m != src)
+	var z %[1]s
+	*m = z
+%[3]s	m.%[2]s = c
+	s1 := m.Size()
+	m.%[2]s = 0
+	s2 := m.Size()
+	gocv_assert(s1 == s2, "size-independent-of-cache")
+}
+`, t.Name, t.Cache, pre)
+		fmt.Fprintf(&c, "\n//@ func lemma_c09_%s(m *%s, src *%s, c int32)\n//@   harness\n//@   inlines Size\n//@   abstracts vlen\n//@   bounded %d every field zero except proto2 required fields (arbitrary); the size cache arbitrary\n", t.Name, t.Name, t.Name, listBound+1)
+	}
+	// C17 (marshal direction): a message with an unset required field is rejected.
+	for _, t := range types {
+		if len(t.Required) == 0 {
+			continue
+		}
+		exts := ""
+		for _, e := range t.MsgExts {
+			exts += fmt.Sprintf("\tif v := gocv_extSlot(m, %s).val; v != nil {\n\t\t_, ok := v.(csproto.Sizer)\n\t\tgocv_assume(ok)\n\t}\n", e)
+		}
+		variants := append([]string{"none"}, t.Required...)
+		for _, miss := range variants {
+			pre := ""
+			for _, r := range t.Required {
+				if miss != "none" && r != miss {
+					pre += fmt.Sprintf("\tm.%[1]s = src.%[1]s\n", r)
+				}
+			}
+			what := "required field " + miss + " unset, the other required fields arbitrary"
+			if miss == "none" {
+				what = "every required field unset (the empty message)"
+			}
+			fmt.Fprintf(&h, `
+func lemma_c17_%[1]s_%[2]s(m *%[1]s, src *%[1]s) {
+	gocv_assume(m != nil && src != nil && m != src)
+	var z %[1]s
+	*m = z
+%[3]s%[4]s	_, err := m.Marshal()
+	gocv_assert(err != nil, "marshal-rejects-missing-required")
+	sz := m.Size()
+	gocv_assume(int(int32(sz)) == sz)
+	buf := make([]byte, sz)
+	err2 := m.MarshalTo(buf)
+	gocv_assert(err2 != nil, "marshalto-rejects-missing-required")
+}
+`, t.Name, miss, pre, exts)
+			fmt.Fprintf(&c, "\n//@ func lemma_c17_%s_%s(m *%s, src *%s)\n//@   harness\n//@   inlines Size, MarshalTo, Marshal\n//@   abstracts vlen\n//@   bounded %d %s; every other field zero\n", t.Name, miss, t.Name, t.Name, listBound+1, what)
+		}
+		// converse: all required fields set (scalar ones), nothing else: no error
+		allScalar := len(t.ReqMsg) == 0
+		if allScalar {
+			pre := ""
+			for _, r := range t.Required {
+				pre += fmt.Sprintf("\tm.%[1]s = src.%[1]s\n\tgocv_assume(m.%[1]s != nil)\n", r)
+			}
+			for _, e := range t.MsgExts {
+				pre += fmt.Sprintf("\tgocv_assume(gocv_extSlot(m, %s).val == nil)\n", e)
+			}
+			fmt.Fprintf(&h, `
+func lemma_c17_%[1]s_all(m *%[1]s, src *%[1]s) {
+	gocv_assume(m != nil && src != nil && m != src)
+	var z %[1]s
+	*m = z
+%[2]s	sz := m.Size()
+	gocv_assume(int(int32(sz)) == sz)
+	buf := make([]byte, sz)
+	err := m.MarshalTo(buf)
+	gocv_assert(err == nil, "no-spurious-required-error")
+}
+`, t.Name, pre)
+			fmt.Fprintf(&c, "\n//@ func lemma_c17_%s_all(m *%s, src *%s)\n//@   harness\n//@   inlines Size, MarshalTo\n//@   abstracts vlen\n//@   bounded %d every required field set, every other field zero, no extensions\n", t.Name, t.Name, t.Name, listBound+1)
+		}
+	}
+	// Unmarshal harnesses (C08 totality, C10 aliasing, C07 unknown fields, C17 required on
+	// decode).  Reset is generated by protoc-gen-go, not by this repository: trusted contract.
+	for _, t := range types {
+		if !t.HasUnmarshal {
+			continue
+		}
+		var ens []string
+		for _, f := range t.Fields {
+			ens = append(ens, fmt.Sprintf("x.%s == %s", f, t.Zero[f]))
+		}
+		if t.Unknown != "" {
+			ens = append(ens, fmt.Sprintf("x.%s == nil", t.Unknown))
+		}
+		if t.Cache != "" {
+			ens = append(ens, fmt.Sprintf("x.%s == 0", t.Cache))
+		}
+		fmt.Fprintf(&c, "\n//@ func (x *%s) Reset()\n//@   trusted generated by protoc-gen-go (outside this repository): zeroes the message; the runtime's bookkeeping fields are not modelled\n", t.Name)
+		for _, e := range ens {
+			fmt.Fprintf(&c, "//@   ensures %s\n", e)
+		}
+		fmt.Fprintf(&c, "//@   modifies *x\n")
+
+		fmt.Fprintf(&h, `
+func lemma_c08_%[1]s(m *%[1]s, p []byte) {
+	gocv_assume(m != nil)
+	_ = m.Unmarshal(p)
+}
+`, t.Name)
+		fmt.Fprintf(&c, "\n//@ func lemma_c08_%s(m *%s, p []byte)\n//@   harness\n//@   inlines Unmarshal\n//@   bounded %d inputs with at most %d top-level fields (arbitrary bytes otherwise); the destination arbitrary\n", t.Name, t.Name, unmarshalFields, unmarshalFields)
+
+		// C10
+		var al strings.Builder
+		for _, f := range t.Bytes {
+			fmt.Fprintf(&al, "\tgocv_assert(len(m.%[1]s) == 0 || !gocv_sameArr(m.%[1]s, p), \"no-alias-%[1]s\")\n", f)
+		}
+		for _, f := range t.Strings {
+			fmt.Fprintf(&al, "\tgocv_assert(!gocv_strAliases(m.%[1]s, p), \"no-alias-%[1]s\")\n", f)
+		}
+		for _, f := range t.StrPtrs {
+			fmt.Fprintf(&al, "\tif m.%[1]s != nil {\n\t\tgocv_assert(!gocv_strAliases(*m.%[1]s, p), \"no-alias-%[1]s\")\n\t}\n", f)
+		}
+		for _, f := range t.RepBytes {
+			fmt.Fprintf(&al, "\tif len(m.%[1]s) > 0 {\n\t\tgocv_assert(len(m.%[1]s[0]) == 0 || !gocv_sameArr(m.%[1]s[0], p), \"no-alias-%[1]s\")\n\t}\n", f)
+		}
+		if t.Unknown != "" {
+			fmt.Fprintf(&al, "\tgocv_assert(len(m.%[1]s) == 0 || !gocv_sameArr(m.%[1]s, p), \"no-alias-%[1]s\")\n", t.Unknown)
+		}
+		if al.Len() > 0 {
+			fmt.Fprintf(&h, `
+func lemma_c10_%[1]s(m *%[1]s, p []byte) {
+	gocv_assume(m != nil)
+	err := m.Unmarshal(p)
+	if err != nil {
+		return
+	}
+%[2]s}
+`, t.Name, al.String())
+			fmt.Fprintf(&c, "\n//@ func lemma_c10_%s(m *%s, p []byte)\n//@   harness\n//@   inlines Unmarshal\n//@   bounded %d inputs with at most %d top-level fields; string, bytes, first repeated-bytes element and unknown-field storage checked\n", t.Name, t.Name, unmarshalFields, unmarshalFields)
 		}
 	}
 	return h.String(), c.String()
 }
+
+// unmarshalFields: how many top-level fields of the input the Unmarshal harnesses follow.
+var unmarshalFields = 2
 var listBoundDefault = 1
